@@ -5,7 +5,7 @@ use serde_json::{json, Value};
 use vcore::{bft::*, *};
 use zksync_concurrency::{ctx, oneshot, time};
 use zksync_consensus_bft::{create_input_channel, FromNetworkMessage};
-use zksync_consensus_roles::validator::v2::{ChonkyMsg, ReplicaTimeout};
+use zksync_consensus_roles::validator::{v2::{ChonkyMsg, ReplicaTimeout}, ConsensusMsg};
 
 fn main() {
     quiet_panics();
@@ -14,6 +14,9 @@ fn main() {
     let f = Forge { c: &c };
     let mut labels = Labels::default();
     let p = labels.payload("p");
+    let p2 = labels.payload("q");
+    // content variants (PrunableQueue.tla, field c): 1 = the sender names another genesis hash, 2 = another block
+    let other_genesis = Committee::new(&[1, 1, 1, 1], 22).genesis.hash();
     let mut rep = Report::default();
     let rt = tokio::runtime::Builder::new_current_thread().enable_all().build().unwrap();
     let clock = ctx::ManualClock::new();
@@ -25,10 +28,17 @@ fn main() {
         }
         let s = m["s"].as_u64().unwrap() as usize;
         let v = m["v"].as_u64().unwrap();
+        let cv = m["c"].as_u64().unwrap_or(0);
+        let mut view = c.view(v);
+        if cv == 1 {
+            view.genesis = other_genesis;
+        }
         let mut msg = if m["k"] == "commit" {
-            f.commit(s, f.vote(v, 0, &p))
+            let mut vote = f.vote(v, 0, if cv == 2 { &p2 } else { &p });
+            vote.view = view;
+            f.commit(s, vote)
         } else {
-            f.sign(s, ChonkyMsg::ReplicaTimeout(ReplicaTimeout { view: c.view(v), high_vote: None, high_qc: None }))
+            f.sign(s, ChonkyMsg::ReplicaTimeout(ReplicaTimeout { view, high_vote: None, high_qc: None }))
         };
         if !m["ok"].as_bool().unwrap() {
             // signature of another message
@@ -40,7 +50,14 @@ fn main() {
     let ident = |m: &SMsg| -> Value {
         let abs = Abs { c: &c, l: &labels };
         let x = abs.msg_abs(m);
-        json!({"s": x["from"], "k": x["t"], "v": if x["t"] == "commit" { x["vote"]["view"].clone() } else { x["view"].clone() }})
+        let ConsensusMsg::V2(inner) = &m.msg;
+        let cv = match inner {
+            ChonkyMsg::ReplicaCommit(v) => if v.view.genesis == other_genesis { 1 } else if v.proposal.payload == p2.hash() { 2 } else { 0 },
+            ChonkyMsg::ReplicaTimeout(t) => if t.view.genesis == other_genesis { 1 } else { 0 },
+            _ => 0,
+        };
+        // the view number is read off the message itself (the abstraction refuses to name views of other chains)
+        json!({"s": x["from"], "k": x["t"], "v": inner.view_number().0, "c": cv})
     };
     for case in read_cases(&a[0]) {
         rep.evaluations += 1;
@@ -74,7 +91,7 @@ fn main() {
         let want: Vec<Value> = ops
             .iter()
             .filter(|o| o["op"] == "recv")
-            .map(|o| if o["res"] == "empty" { json!("empty") } else { json!({"s": o["m"]["s"], "k": o["m"]["k"], "v": o["m"]["v"]}) })
+            .map(|o| if o["res"] == "empty" { json!("empty") } else { json!({"s": o["m"]["s"], "k": o["m"]["k"], "v": o["m"]["v"], "c": o["m"]["c"]}) })
             .collect();
         match res {
             Err(pm) => rep.fail("queue_panic", format!("panic: {pm}"), json!({"mode": "queue", "case": case})),
